@@ -1463,6 +1463,16 @@ func (c *pieceCtx) r9(rule string) {
 					return out
 				}
 			}
+			// go verifyPiece(t, index, t.PieceHashes[index]): a named function with one call site
+			if pa, ok := v.(*ssa.Parameter); ok && f.Parent() == nil {
+				if sites, esc := p.callSitesOf(f); len(esc) == 0 && len(sites) == 1 {
+					for i, q := range f.Params {
+						if q == pa && i < len(sites[0].Common().Args) {
+							return sites[0].Common().Args[i]
+						}
+					}
+				}
+			}
 			return v
 		}
 		idxA, hA := resolve(idx), resolve(h)
